@@ -64,7 +64,18 @@ func (g *guarded) intact(want []byte) bool {
 
 // scribble overwrites the caller-visible bytes (not the guards).
 func (g *guarded) scribble(pat byte) {
+	scribbleCalls++
+	if !scribbleOn {
+		return
+	}
 	for i := 0; i < g.n; i++ {
 		g.whole[g.off+i] = pat ^ byte(i*7)
 	}
 }
+
+// scribbleOn is switched off for the second execution of every case: the same history with and
+// without the caller overwriting its buffers must give the same observable (an oracle for the
+// "owned copies" clauses of C08/C09 that does not depend on the model).
+var scribbleOn = true
+
+var scribbleCalls int
